@@ -4,7 +4,9 @@ All programs p1 op p2 ... pn (op in ; && ||, each pi = `vh-mark i s $?` exiting 
 (thorough 6) with s in {0,1}, all programs up to n = 2 (3) with s in {0,1,2,255}, decoy variants
 (quoted / escaped operators as extra arguments) and two-stage pipelines as pi, run by the real binary
 with -c and as a script file; oracle = reference interpreter (status register, skip leaves it unchanged):
-exact record sequence, every $? probe, process exit status."""
+exact record sequence, every $? probe, process exit status. Second layer: members of ten kinds (external, assignment
+only, builtin succeeding / failing, cd, export, command not found, pipeline ending in a builtin): all programs of 1..2
+members over all kinds and of 3 members (quick: over five kinds), with a final $? probe and without (exit status)."""
 import itertools
 import os
 
@@ -50,6 +52,87 @@ def render(ops, stats, variant):
             parts.append(ops[i])
         parts.append(p)
     return ' '.join(parts)
+
+
+KINDS = {   # name: (template, status, records a mark)
+    'ext0': ('vh-mark %d 0 $?', 0, True),
+    'ext3': ('vh-mark %d 3 $?', 3, True),
+    'assign': ('V%d=x', 0, False),
+    'builtin-ok': ('alias z%d=1', 0, False),
+    'builtin-fail': ('unalias nosuch%d', 1, False),
+    'cd-ok': ('cd . # %d', 0, False),
+    'cd-fail': ('cd /nonexistent%d', 1, False),
+    'not-found': ('vh-nosuch%d', 127, False),
+    'export': ('export E%d=1', 0, False),
+    'pipeline-builtin-last': ('vh-io x%d 1 | alias', 0, False),
+}
+KINDS['cd-ok'] = ('cd .', 0, False)
+QUICK3 = ['ext0', 'ext3', 'assign', 'builtin-fail', 'not-found']
+
+
+def kind_programs(tier):
+    names = list(KINDS)
+    for n in (1, 2):
+        for ks in itertools.product(names, repeat=n):
+            for ops in itertools.product(OPS, repeat=n - 1):
+                yield (None,) + ops, ks
+    three = names if tier == 'thorough' else QUICK3
+    for ks in itertools.product(three, repeat=3):
+        for ops in itertools.product(OPS, repeat=2):
+            yield (None,) + ops, ks
+
+
+def run_kind_case(case):
+    """members of different kinds (external, assignment only, builtin, cd, not found, export ...): the status register after
+    each member, seen by the next probing member and by a final probe / the process exit status"""
+    ops, ks, final_probe, mode = case
+    parts = []
+    reg = 0
+    exp = []
+    for i, k in enumerate(ks):
+        tmpl, st, records = KINDS[k]
+        if ops[i] is not None:
+            parts.append(ops[i])
+        parts.append(tmpl % (i + 1) if '%d' in tmpl else tmpl)
+        if (ops[i] == '&&' and reg != 0) or (ops[i] == '||' and reg == 0):
+            continue
+        if records:
+            exp.append((i + 1, reg))
+        reg = st
+    if final_probe:
+        parts += [';', 'vh-mark 9 0 $?']
+        exp.append((9, reg))
+        reg = 0
+    line = ' '.join(parts)
+    d = common.fresh_case_dir()
+    try:
+        if mode == 'c':
+            r = common.run_cicada(['-c', line], d, timeout=20)
+        else:
+            path = os.path.join(d, 's.sh')
+            with open(path, 'w') as f:
+                f.write(line + '\n')
+            r = common.run_cicada([path], d, timeout=20)
+        if r.timed_out:
+            return (line, 'hang', exp, reg, None, None)
+        obs = []
+        for x in r.records:
+            if x.get('k') == 'mark':
+                a = x['argv']
+                try:
+                    obs.append((int(a[0]), int(a[2])))
+                except (ValueError, IndexError):
+                    obs.append(tuple(a))
+        kind = 'ok'
+        if [o[0] for o in obs] != [e[0] for e in exp]:
+            kind = 'sequence'
+        elif obs != exp:
+            kind = 'probe'
+        elif r.status != reg:
+            kind = 'exit-status'
+        return (line, kind, exp, reg, obs, r.status)
+    finally:
+        common.drop_case_dir(d)
 
 
 def run_case(case):
@@ -154,6 +237,46 @@ def run(rep, tier):
         rep.violation(sig, {'line': line, 'mode': mode}, {'records': exp_recs, 'exit_status': exp_status},
                       {'records': obs, 'exit_status': status},
                       repro=('cicada -c %s' % common.shquote(line)) if mode == 'c' else 'script file containing: %s' % line)
+    # members of different kinds
+    kcases = []
+    for ops, ks in kind_programs(tier):
+        kcases.append((ops, ks, True, 'c'))
+        if len(ks) <= 2:
+            kcases.append((ops, ks, False, 'c'))
+            kcases.append((ops, ks, True, 'script'))
+            kcases.append((ops, ks, False, 'script'))
+    kres = common.pmap(run_kind_case, kcases, chunk=8)
+    for case, (line, kind, exp, reg, obs, status) in zip(kcases, kres):
+        ops, ks, final_probe, mode = case
+        rep.evaluations += 1
+        rep.transitions += len(ks)
+        states.add((tuple(obs or ()), status))
+        if any(not KINDS[k][2] for k in ks):
+            rep.nontrivial += 1
+        if kind != 'ok':
+            line, kind2, exp, reg, obs2, status2 = run_kind_case(case)
+            if kind2 == 'ok':
+                rep.outcome('unreproduced-deviation')
+                kind = 'ok'
+            else:
+                kind, obs, status = kind2, obs2, status2
+        if kind == 'ok':
+            rep.outcome('ok:kinds')
+            rep.traces_validated += 1
+            continue
+        rep.outcome('deviation:kinds:' + kind)
+        # class = deviation kind + the kind of the last member before the first wrong observation + entry point
+        bad = 0
+        if obs is not None:
+            while bad < len(obs) and bad < len(exp) and obs[bad] == exp[bad]:
+                bad += 1
+        upto = (exp[bad][0] if bad < len(exp) else len(ks) + 1)
+        prev = ks[min(upto, len(ks) + 1) - 2] if upto >= 2 else ks[0]
+        rep.violation('%s:member-kinds:after-%s:%s' % (kind, prev, mode), {'line': line, 'mode': mode, 'kinds': list(ks)},
+                      {'records': exp, 'exit_status': reg}, {'records': obs, 'exit_status': status},
+                      repro=('cicada -c %s' % common.shquote(line)) if mode == 'c' else 'script file containing: %s' % line)
+    rep.bounds.append({'layer': 'real binary, members of %d kinds' % len(KINDS), 'n_max_all_kinds': 2, 'n_3_kinds': 'all' if tier == 'thorough' else QUICK3,
+                       'cases': len(kcases), 'complete': True})
     rep.states = len(states)
     rep.bounds.append({'layer': 'real binary', 'n_max_binary_status': nmax, 'n_max_four_status': nmax4, 'cases': len(cases), 'complete': True})
     rep.sample({'line': cases[len(cases) // 3] and render(*cases[len(cases) // 3][:3]), 'mode': cases[len(cases) // 3][3]})
